@@ -79,6 +79,8 @@ class Preservative:
         # {'FileName', {'Tag', [line1, line2,..., lineX]}}
         self.preserved_tags_per_file = {}
         self.preserved_tags_per_file_WAS_USED = {}
+        # Files whose content could not be read back completely (their preserved tags are incomplete).
+        self.unreadable_files = []
 
         # Does the input exist? (The input is the output of the code generator before it rewrites it)
         if os.path.exists(outputfile_OR_dir):
@@ -127,9 +129,11 @@ class Preservative:
                         __current_preservation_line = CleanUpLine(line)
                         __current_preservation = []
             except UnicodeDecodeError:
+                self.unreadable_files.append(filename_and_path)
                 print(
                     "<Warning> UnicodeDecodeError caught on " + filename_and_path + ". If this file is not part of the currently preserved files, then ignore.")
             except:
+                self.unreadable_files.append(filename_and_path)
                 print(
                     "<Warning> Unknown error caught on " + filename_and_path + ". If this file is not part of the currently preserved files, then ignore.")
 
